@@ -656,6 +656,7 @@ func suiteC01(cfg Config, res *Result, kind string) {
 	if kind == "files" {
 		defer c01CacheAfterFailure(res)
 		defer c01OddKeys(res)
+		defer c01TextIndex(res)
 	}
 	n := map[string]int{"bytes": 20000, "prog": 8000, "paths": 20000, "files": 0}[kind]
 	if cfg.Thorough() {
